@@ -4,6 +4,8 @@ import (
 	"fmt"
 	"math/rand"
 	"time"
+
+	"verif/harness/synth"
 )
 
 var exactKinds = []RSource{
@@ -37,11 +39,11 @@ func checkC05(c *Ctx) (int, error) {
 		return 0, err
 	}
 	rng := rand.New(rand.NewSource(c.Seed))
-	n := 10
+	n := 16
 	if c.Tier == "thorough" {
 		n = 200
 	}
-	suffixes := []int{0, 1, 7, 8, 9, 100, 5000}
+	suffixes := []int{0, 1, 7, 8, 9, 24, 25, 40, 100, 5000}
 	var cases []*RCase
 	id := 0
 	for _, kind := range []string{"flate", "gzip", "zlib"} {
@@ -67,6 +69,17 @@ func checkC05(c *Ctx) (int, error) {
 					}
 					cases = append(cases, cs)
 					c.ev.nontrivial(cs.Tag)
+					if len(st.s.Enc) > 0 && st.s.Enc[0].Impl == "fastgo" && ek.Kind == "bufio" && sfx > 16 {
+						// streams that end in a Huffman block (only fastgo's writers make them): every other level too
+						for _, a := range c.Levels {
+							if a != cs.Arch {
+								d := *cs
+								d.ID, d.Arch = fmt.Sprintf("%s@A%d", cs.ID, a), a
+								d.Segs = append([]RSeg{}, cs.Segs...)
+								cases = append(cases, &d)
+							}
+						}
+					}
 				}
 			}
 		}
@@ -117,6 +130,20 @@ func checkC11(c *Ctx) (int, error) {
 			points := []int{len(b)}
 			for _, s := range o.Syncs {
 				points = append(points, s.ByteEnd)
+			}
+			// unrelated bytes after a sync point, delivered together with the prefix or later
+			for _, sp := range o.Syncs {
+				for gi, ch := range [][]int{{0}, {sp.ByteEnd}, {3}} {
+					g := st
+					g.Mut = []Mutation{{Op: "trunc", Pos: sp.ByteEnd}, {Op: "append", N: 20 + rng.Intn(200), Seed: int64(id)}}
+					src := RSource{Kind: []string{"plain", "bufio"}[gi%2], BufSize: 4096, Chunks: ch, FailAt: -1, Released: -1, After: "garbage", Garbage: sp.ByteEnd}
+					cs := &RCase{ID: fmt.Sprintf("C11-%d", id), Kind: kind, Arch: c.Levels[id%len(c.Levels)],
+						Tag:  fmt.Sprintf("%s-%s%d|at%d/%d|garbage|%v", kind, enc.impl, enc.level, sp.ByteEnd, len(b), ch),
+						Segs: []RSeg{{Stream: g, Src: src, Reads: readSchedules[id%len(readSchedules)], Multi: true}}}
+					id++
+					cases = append(cases, cs)
+					c.ev.nontrivial(cs.Tag)
+				}
 			}
 			for _, p := range points {
 				for _, after := range []string{"block", "error"} {
@@ -211,7 +238,7 @@ func checkC13(c *Ctx) (int, error) {
 	c.ev.Assumptions = []string{"earlier histories enumerated over {stream class} x {stop point: before the first Read, mid-stream with undelivered output, at EOF, after corrupt input, after a source error}; next inputs: valid, truncated, and malformed streams whose back-references reach before their own start; payloads are seeded samples",
 		"the result after Reset is compared with a fresh Reader's on the same input and both are judged by ReaderContract"}
 	rng := rand.New(rand.NewSource(c.Seed))
-	n := 6
+	n := 12
 	if c.Tier == "thorough" {
 		n = 100
 	}
@@ -234,6 +261,16 @@ func checkC13(c *Ctx) (int, error) {
 					nexts = append(nexts, namedStream{name: fmt.Sprintf("lookback-l%d-d%d", lb[0], lb[1]), kind: kind, s: RStream{Hex: lookbackStreamHex(lb[0], lb[1])}})
 				}
 			}
+			if kind == "flate" {
+				// synthesised next inputs: fixed blocks with matches (the tables a fixed block needs must be reloaded), random shapes
+				fx := synth.Desc{Seed: rng.Int63n(1 << 40), Blocks: []synth.BlockDesc{{Type: "fixed", LShape: "flat", DShape: "flat", Toks: "mixed", N: 20 + rng.Intn(200)}}}
+				nexts = append(nexts, namedStream{name: "synth-fixed", kind: kind, s: RStream{Synth: &SynthSpec{fx}}},
+					namedStream{name: "synth-random", kind: kind, s: RStream{Synth: &SynthSpec{synth.RandomDesc(rng, 3, 300)}}})
+			}
+			if kind == "gzip" {
+				two := RStream{Enc: []EncSpec{{Impl: "std", Kind: "gzip", Level: 6, Window: 32768, Data: randData(rng, 500)}, {Impl: "fastgo", Kind: "gzip", Level: 1, Window: 32768, Data: randData(rng, 3000)}}}
+				nexts = append(nexts, namedStream{name: "gzip-two-members", kind: kind, s: two})
+			}
 			if kind == "zlib" {
 				dd := DataSpec{Class: "text", Seed: int64(fi), Len: 400}
 				d := randData(rng, 3000)
@@ -242,9 +279,27 @@ func checkC13(c *Ctx) (int, error) {
 					s: RStream{Enc: []EncSpec{{Impl: "std", Kind: "zlib", Level: 6, Window: 32768, Data: d, Dict: &dd}}}})
 			}
 			for ni, nx := range nexts {
-				for stop, stopName := range []string{"unread", "partial", "eof", "corrupt", "srcerr"} {
+				for stop, stopName := range []string{"unread", "partial", "eof", "corrupt", "srcerr", "fault", "single"} {
 					h1 := RSeg{Stream: f1.s, Src: srcWith(RSource{Kind: "plain"}, []int{0}), Reads: []int{10}, Multi: true}
+					var h0 *RSeg
 					switch stopName {
+					case "fault":
+						// two earlier streams: a fixed-block one, then one with an injected fault (every kind over the run)
+						if kind != "flate" {
+							continue
+						}
+						fx := synth.Desc{Seed: rng.Int63n(1 << 40), Blocks: []synth.BlockDesc{{Type: "fixed", LShape: "flat", DShape: "flat", Toks: "mixed", N: 50}}}
+						h0 = &RSeg{Stream: RStream{Synth: &SynthSpec{fx}}, Src: srcWith(RSource{Kind: "bytesReader"}, nil), Reads: []int{4096}, Multi: true}
+						fk := synth.FaultKinds[(id+fi+ni)%len(synth.FaultKinds)]
+						h1.Stream = RStream{Synth: &SynthSpec{synth.RandomFaultDesc(rng, fk, (id+ni)%2 == 0)}}
+						h1.Reads = []int{4096}
+					case "single":
+						// gzip: the earlier stream was read in Multistream(false) mode; Reset must restore the default
+						if kind != "gzip" {
+							continue
+						}
+						h1.Multi = false
+						h1.Reads = []int{4096}
 					case "unread":
 						h1.Stop, h1.Reads = 1, []int{1}
 					case "partial":
@@ -265,6 +320,9 @@ func checkC13(c *Ctx) (int, error) {
 					h1.Dict = nil
 					reused := &RCase{ID: fmt.Sprintf("C13-%d-reset", id), Kind: kind, Arch: arch, Group: group, GClause: "C13.same_as_fresh",
 						Tag: fmt.Sprintf("%s|%s|then %s", f1.name, stopName, nx.name), Segs: []RSeg{h1, next}}
+					if h0 != nil {
+						reused.Segs = []RSeg{*h0, h1, next}
+					}
 					id++
 					cases = append(cases, fresh, reused)
 					c.ev.nontrivial(reused.Tag)
@@ -272,7 +330,7 @@ func checkC13(c *Ctx) (int, error) {
 			}
 		}
 	}
-	c.ev.Rule = fmt.Sprintf("%d first streams per kind x stop point {before first Read, partial with undelivered output, EOF, corrupt, source error} x next input {2 valid, truncated, lookback-before-start (flate), dictionary stream (zlib)}; the segment after Reset is compared with a fresh Reader on the same input (group clause) and judged by the contract; distinct by (first, stop, next)", n)
+	c.ev.Rule = fmt.Sprintf("%d first streams per kind x stop point {before first Read, partial with undelivered output, EOF, corrupt, source error, a fixed-block stream followed by a stream with an injected fault (flate, all 17 kinds), read in Multistream(false) mode (gzip)} x next input {2 valid, truncated, lookback-before-start, synthesised fixed/random blocks (flate), two-member file (gzip), dictionary stream (zlib)}; the segment after Reset is compared with a fresh Reader on the same input (group clause) and judged by the contract; distinct by (first, stop, next)", n)
 	c.ev.Exhaustive = true
 	for _, cs := range cases[:minInt(4, len(cases))] {
 		c.ev.sample(map[string]interface{}{"case": cs.Tag})
